@@ -24,6 +24,8 @@ import (
 	"connectrpc.com/conformance/internal/app/referenceserver"
 	conformancev1 "connectrpc.com/conformance/internal/gen/proto/go/connectrpc/conformance/v1"
 	"connectrpc.com/conformance/internal/verifsim/simnet"
+	"connectrpc.com/conformance/internal/verifsim/simrt"
+	"google.golang.org/protobuf/encoding/protojson"
 )
 
 // nJob is what the engine-N driver passes in VERIF_NJOB.
@@ -47,28 +49,43 @@ type nJob struct {
 	DgramMinUs   int      `json:"dgram_min_us"`
 	DgramMaxUs   int      `json:"dgram_max_us"`
 	Out          string   `json:"out"`
+	// generated suites (C02)
+	GenSeed     uint64     `json:"gen_seed"`
+	GenCases    int        `json:"gen_cases"`
+	GenTapes    [][]uint32 `json:"gen_tapes"`
+	GenThorough bool       `json:"gen_thorough"`
+}
+
+type genInfo struct {
+	Name   string   `json:"name"`
+	Load   string   `json:"load"`
+	Tape   []uint32 `json:"tape"`
+	Def    string   `json:"definition,omitempty"`
+	Stream string   `json:"stream_type"`
+	NReq   int      `json:"requests"`
 }
 
 type nOut struct {
-	Name        string   `json:"name"`
-	OK          bool     `json:"ok"`
-	Err         string   `json:"err"`
-	Total       int      `json:"total"`
-	Passed      int      `json:"passed"`
-	Failed      int      `json:"failed"`
-	CouldNotRun int      `json:"could_not_run"`
-	ExpFailed   int      `json:"expected_failures"`
-	FailedNames []string `json:"failed_names"`
-	InfoNames   []string `json:"expected_failure_names"`
-	Unexpected  []string `json:"failed_lines"`
-	Permutations int     `json:"permutations"`
-	Names       []string `json:"names,omitempty"`
-	SimSeconds  float64  `json:"sim_seconds"`
-	WallSeconds float64  `json:"wall_seconds"`
-	Panic       string   `json:"panic,omitempty"`
-	ErrLines    []string `json:"err_lines"`
-	Net         map[string]int64 `json:"net"`
-	NetLevel    string   `json:"net_level"`
+	Name         string           `json:"name"`
+	OK           bool             `json:"ok"`
+	Err          string           `json:"err"`
+	Total        int              `json:"total"`
+	Passed       int              `json:"passed"`
+	Failed       int              `json:"failed"`
+	CouldNotRun  int              `json:"could_not_run"`
+	ExpFailed    int              `json:"expected_failures"`
+	FailedNames  []string         `json:"failed_names"`
+	InfoNames    []string         `json:"expected_failure_names"`
+	Unexpected   []string         `json:"failed_lines"`
+	Permutations int              `json:"permutations"`
+	Names        []string         `json:"names,omitempty"`
+	SimSeconds   float64          `json:"sim_seconds"`
+	WallSeconds  float64          `json:"wall_seconds"`
+	Panic        string           `json:"panic,omitempty"`
+	ErrLines     []string         `json:"err_lines"`
+	Net          map[string]int64 `json:"net"`
+	NetLevel     string           `json:"net_level"`
+	Gen          []genInfo        `json:"gen,omitempty"`
 }
 
 type linePrinter struct {
@@ -78,15 +95,24 @@ type linePrinter struct {
 }
 
 func (p *linePrinter) Printf(msg string, args ...any) {
+	line := fmt.Sprintf(msg, args...)
 	p.mu.Lock()
-	p.lines = append(p.lines, fmt.Sprintf(msg, args...))
+	p.lines = append(p.lines, line)
 	p.mu.Unlock()
 	p.tick.Add(1)
+	if nDebug {
+		if len(line) > 400 {
+			line = line[:400]
+		}
+		fmt.Fprintf(os.Stderr, "[%s] %s\n", time.Now().Format("15:04:05.000"), line)
+	}
 }
 
 func (p *linePrinter) PrefixPrintf(prefix, msg string, args ...any) {
 	p.Printf(prefix+": "+msg, args...)
 }
+
+var nDebug = os.Getenv("VERIF_NDEBUG") != ""
 
 var nFailedRE = regexp.MustCompile(`^FAILED: (\S.*?)(:$|:\n| was expected to fail)`)
 var nInfoRE = regexp.MustCompile(`^INFO: (\S.*?) failed \(as expected\)`)
@@ -122,7 +148,7 @@ func TestVerifN(t *testing.T) {
 		return
 	}
 	simnet.Configure(simnet.Config{Seed: job.Seed, MaxSegment: job.MaxSegment, SmallPermil: job.SmallPermil,
-		MaxLatency: time.Duration(job.MaxLatencyUs) * time.Microsecond,
+		MaxLatency:  time.Duration(job.MaxLatencyUs) * time.Microsecond,
 		MinDatagram: time.Duration(job.DgramMinUs) * time.Microsecond, MaxDatagram: time.Duration(job.DgramMaxUs) * time.Microsecond})
 	var tick atomic.Int64
 	// wall-clock watchdog: a frozen simulation never produces a verdict
@@ -143,8 +169,12 @@ func TestVerifN(t *testing.T) {
 		}
 	}()
 	wallStart := time.Now()
+	var gen []genInfo
+	if job.GenCases > 0 || len(job.GenTapes) > 0 {
+		gen = nGenerate(&job)
+	}
 	synctest.Test(t, func(t *testing.T) {
-		out := &nOut{Name: job.Name, NetLevel: simnet.Describe()}
+		out := &nOut{Name: job.Name, NetLevel: simnet.Describe(), Gen: gen}
 		logP := &linePrinter{tick: &tick}
 		errP := &linePrinter{tick: &tick}
 		simStart := time.Now()
@@ -248,6 +278,71 @@ func TestVerifN(t *testing.T) {
 		// the bubble from ending: the verdict is on disk, leave now
 		os.Exit(0)
 	})
+}
+
+// nGenerate draws the job's test cases, checks that each one loads on its own
+// (a panic is a violation, an error a legal rejection) and writes a suite file
+// with the loadable ones.
+func nGenerate(job *nJob) []genInfo {
+	dir, err := os.MkdirTemp("", "verif-gen-")
+	if err != nil {
+		fmt.Fprintln(os.Stderr, err)
+		os.Exit(2)
+	}
+	cfgData, err := os.ReadFile(job.ConfigFile)
+	if err != nil {
+		fmt.Fprintln(os.Stderr, err)
+		os.Exit(2)
+	}
+	configCases, err := parseConfig(job.ConfigFile, cfgData)
+	if err != nil {
+		fmt.Fprintln(os.Stderr, err)
+		os.Exit(2)
+	}
+	mode := conformancev1.TestSuite_TEST_MODE_SERVER
+	if job.Mode == "client" {
+		mode = conformancev1.TestSuite_TEST_MODE_CLIENT
+	}
+	n := job.GenCases
+	if len(job.GenTapes) > 0 {
+		n = len(job.GenTapes)
+	}
+	var infos []genInfo
+	var cases []*conformancev1.TestCase
+	for i := 0; i < n; i++ {
+		var tp *simrt.Tape
+		if len(job.GenTapes) > 0 {
+			tp = simrt.ReplayTape(job.GenTapes[i])
+		} else {
+			tp = simrt.NewTape(simrt.DeriveSeed(job.GenSeed, 0, i))
+		}
+		name := fmt.Sprintf("g%d", i)
+		tc := genCase(tp, name, job.GenThorough)
+		info := genInfo{Name: name, Tape: tp.Values(), Stream: tc.Request.StreamType.String(), NReq: len(tc.Request.RequestMessages)}
+		info.Load = genLoadCheck(dir, tc, configCases, mode)
+		if def, err := protojson.Marshal(tc); err == nil && (len(def) < 6000 || info.Load != "ok") {
+			info.Def = string(def)
+			if len(info.Def) > 20000 {
+				info.Def = info.Def[:20000]
+			}
+		}
+		infos = append(infos, info)
+		if info.Load == "ok" {
+			cases = append(cases, tc)
+		}
+	}
+	if len(cases) == 0 {
+		// nothing loadable: give the runner a trivial case so that the run is well defined
+		tc := genCase(simrt.ReplayTape(nil), "g-empty", false)
+		cases = append(cases, tc)
+	}
+	path, err := genSuiteFile(dir, "Gen", cases)
+	if err != nil {
+		fmt.Fprintln(os.Stderr, err)
+		os.Exit(2)
+	}
+	job.TestFiles = []string{path}
+	return infos
 }
 
 // nExpand writes the permutation names of a config (dry expansion) so that the
